@@ -573,6 +573,13 @@ class World:
         net, items = self.build_net(n)
         new_ids = self.net_ids(items)
         col_obst = new_ids & set(self.ids_of_kinds(OBST))
+        all_ids = [i for it in items for i in it.ids]
+        internal = {i for i in all_ids if all_ids.count(i) > 1}
+        if internal:
+            # two elements of the network share an id (the network keeps a table per kind): accepting it would put two
+            # contained objects with one id into the scenario - treated like a collision under every reading
+            col_obst = col_obst | internal
+            self.ctx.label("network-with-internal-id-collision")
         col_old = new_ids & set(old)
         what = "%s n%d %r" % ("replace_net" if replace else "add_net", n, items)
         self.cur = "replace_net" if replace else ("add_net_over" if old else "add_net")
@@ -786,7 +793,7 @@ def u_inter():
 
 def net_recipe():
     def build(t):
-        perm, nl, ns, nt, ni, ninc, refs = t
+        perm, nl, ns, nt, ni, ninc, refs = t[:7]
         perm = list(perm)
         take = lambda k: [perm.pop() for _ in range(k)]  # noqa: E731
         ll = take(nl)
@@ -796,9 +803,15 @@ def net_recipe():
         if nl and ni:
             iid = take(1)[0]
             inters.append({"id": iid, "inc": [{"id": i, "ll": refs[4 + j]} for j, i in enumerate(take(ninc))]})
-        return {"ll": ll, "signs": signs, "lights": lights, "inters": inters}
+        net = {"ll": ll, "signs": signs, "lights": lights, "inters": inters}
+        if t[7] and ll and (signs or lights or inters):
+            # cross-kind id collision inside the network (rare): a sign / light / intersection reuses a lanelet id
+            victim = (signs or lights or inters)[0]
+            victim["id"] = ll[t[7] % len(ll)]
+        return net
     return st.tuples(st.permutations(POOL), st.integers(0, 3), st.integers(0, 2), st.integers(0, 2), st.integers(0, 1),
-                     st.integers(1, 2), st.lists(SELS, min_size=6, max_size=6)).map(build)
+                     st.integers(1, 2), st.lists(SELS, min_size=6, max_size=6),
+                     st.sampled_from([0, 0, 0, 0, 0, 1, 2])).map(lambda t: build(t))
 
 
 def op_add():
